@@ -78,16 +78,46 @@ fn expect_slider(piece: Piece, sq: u8, occ: u64) -> u64 {
 
 fn check_slider(lk: &LookupTable, rep: &Report, piece: Piece, sq: u8, occ: u64) -> bool {
     let want = expect_slider(piece, sq, occ);
-    match slider(lk, piece, sq, occ) {
+    let r = slider(lk, piece, sq, occ);
+    let before: Vec<(Piece, u8, u64)> = TL_HIST.with(|h| h.borrow().iter().cloned().collect());
+    TL_HIST.with(|h| {
+        let mut h = h.borrow_mut();
+        h.push_back((piece, sq, occ));
+        if h.len() > HIST {
+            h.pop_front();
+        }
+    });
+    let mut one = vec!["c10-one".to_string(), "--piece".into(), piece_name(piece).into(), "--sq".into(), sq.to_string(), "--occ".into(), occ.to_string()];
+    cpus_args(&mut one);
+    match r {
         Ok(got) if got == want => true,
         Ok(got) => {
+            // does a table that was asked nothing before answer correctly? then the answer depends
+            // on the earlier lookups, and the replay must repeat them
+            let fresh = guard(|| build_table().sliding_moves(sq, occ, piece));
+            if fresh == Ok(want) && !before.is_empty() {
+                let mut seq: Vec<String> = before.iter().map(|(p, s, o)| format!("{}:{}:{}", piece_name(*p), s, o)).collect();
+                seq.push(format!("{}:{}:{}", piece_name(piece), sq, occ));
+                let mut args = vec!["c10-hist".to_string(), "--seq".into(), seq.join(",")];
+                cpus_args(&mut args);
+                rep.violation(
+                    format!("C10 slider piece={} sq={} depends-on-earlier-lookups", piece_name(piece), sq_name(sq)),
+                    format!(
+                        "{} on {} with occupancy {:#018x}: table gives {:#018x}, ray walk gives {:#018x} -- but a table that was asked nothing before answers correctly: the answer depends on the lookups made before (the last {} are in the replay){}",
+                        piece_name(piece), sq_name(sq), occ, got, want, before.len(), cpus_text()
+                    ),
+                    args,
+                    J::Null,
+                );
+                return false;
+            }
             rep.violation(
                 format!("C10 slider piece={} sq={}", piece_name(piece), sq_name(sq)),
                 format!(
-                    "{} on {} with occupancy {:#018x}: table gives {:#018x}, ray walk gives {:#018x}",
-                    piece_name(piece), sq_name(sq), occ, got, want
+                    "{} on {} with occupancy {:#018x}: table gives {:#018x}, ray walk gives {:#018x}{}",
+                    piece_name(piece), sq_name(sq), occ, got, want, cpus_text()
                 ),
-                vec!["c10-one".into(), "--piece".into(), piece_name(piece).into(), "--sq".into(), sq.to_string(), "--occ".into(), occ.to_string()],
+                one,
                 J::Null,
             );
             false
@@ -95,8 +125,8 @@ fn check_slider(lk: &LookupTable, rep: &Report, piece: Piece, sq: u8, occ: u64) 
         Err(e) => {
             rep.violation(
                 format!("C10 slider piece={} sq={} panic", piece_name(piece), sq_name(sq)),
-                format!("{} on {} occupancy {:#018x}: {}", piece_name(piece), sq_name(sq), occ, e),
-                vec!["c10-one".into(), "--piece".into(), piece_name(piece).into(), "--sq".into(), sq.to_string(), "--occ".into(), occ.to_string()],
+                format!("{} on {} occupancy {:#018x}: {}{}", piece_name(piece), sq_name(sq), occ, e, cpus_text()),
+                one,
                 J::Null,
             );
             false
@@ -171,10 +201,76 @@ fn leaper(sq: u8, steps: &[(i32, i32)]) -> u64 {
 const KNIGHT: [(i32, i32); 8] = [(1, 2), (2, 1), (2, -1), (1, -2), (-1, -2), (-2, -1), (-2, 1), (-1, 2)];
 const KING: [(i32, i32); 8] = [(1, 0), (1, 1), (0, 1), (-1, 1), (-1, 0), (-1, -1), (0, -1), (1, -1)];
 
+/// Number of CPUs the table initialiser is allowed to see (0 = all). The tables are built by
+/// `LookupTable::init()` on a thread whose CPU affinity is narrowed to that many CPUs first, so
+/// that `std::thread::available_parallelism()` (which reads the calling thread's affinity) answers
+/// with it: an initialiser that splits its work by CPU count must produce the same tables for any.
+static CPUS: std::sync::atomic::AtomicUsize = std::sync::atomic::AtomicUsize::new(0);
+
+extern "C" {
+    fn sched_setaffinity(pid: i32, size: usize, mask: *const u64) -> i32;
+    fn sched_getaffinity(pid: i32, size: usize, mask: *mut u64) -> i32;
+}
+
+/// CPUs this process may run on (from the affinity mask of the calling thread).
+fn allowed_cpus() -> Vec<usize> {
+    let mut mask = [0u64; 16];
+    let r = unsafe { sched_getaffinity(0, 128, mask.as_mut_ptr()) };
+    if r != 0 {
+        return vec![];
+    }
+    (0..1024).filter(|i| mask[i / 64] >> (i % 64) & 1 == 1).collect()
+}
+
+fn build_table() -> LookupTable {
+    let n = CPUS.load(std::sync::atomic::Ordering::Relaxed);
+    if n == 0 {
+        return LookupTable::init();
+    }
+    let all = allowed_cpus();
+    if all.len() < n {
+        return LookupTable::init();
+    }
+    let mut old = [0u64; 16];
+    unsafe { sched_getaffinity(0, 128, old.as_mut_ptr()) };
+    let mut mask = [0u64; 16];
+    for c in &all[..n] {
+        mask[c / 64] |= 1u64 << (c % 64);
+    }
+    unsafe { sched_setaffinity(0, 128, mask.as_ptr()) };
+    let t = std::panic::catch_unwind(LookupTable::init);
+    unsafe { sched_setaffinity(0, 128, old.as_ptr()) };
+    match t {
+        Ok(t) => t,
+        Err(e) => std::panic::resume_unwind(e),
+    }
+}
+
 thread_local! {
     /// every worker thread builds its own tables with the real initialiser (a table type that is
     /// not shareable between threads must not stop this check from building)
-    static TL_LK: &'static LookupTable = Box::leak(Box::new(LookupTable::init()));
+    static TL_LK: &'static LookupTable = Box::leak(Box::new(build_table()));
+    /// the last slider lookups this thread's table answered (oldest first)
+    static TL_HIST: std::cell::RefCell<std::collections::VecDeque<(Piece, u8, u64)>> = std::cell::RefCell::new(std::collections::VecDeque::new());
+}
+
+const HIST: usize = 6;
+
+fn cpus_args(v: &mut Vec<String>) {
+    let n = CPUS.load(std::sync::atomic::Ordering::Relaxed);
+    if n > 0 {
+        v.push("--cpus".into());
+        v.push(n.to_string());
+    }
+}
+
+fn cpus_text() -> String {
+    let n = CPUS.load(std::sync::atomic::Ordering::Relaxed);
+    if n > 0 {
+        format!(" (tables built by a thread that may use {} CPU{})", n, if n == 1 { "" } else { "s" })
+    } else {
+        String::new()
+    }
 }
 
 fn tl_lk() -> &'static LookupTable {
@@ -183,12 +279,60 @@ fn tl_lk() -> &'static LookupTable {
 
 pub fn run(tier: &str, seed: u64, out: &str) {
     let rep = Report::new("C10", tier, seed);
-    let lk = match guard(LookupTable::init) {
+    // the whole enumeration once with the tables as this machine builds them, then once for each
+    // smaller number of CPUs the initialiser might see (1, 2, 3, 5, 6, 7: powers of two and counts
+    // that do not divide 64)
+    let avail = allowed_cpus().len();
+    let mut variants: Vec<usize> = vec![0];
+    for n in [1usize, 2, 3, 5, 6, 7, 12] {
+        if n < avail {
+            variants.push(n);
+        }
+    }
+    let mut tot = (0u64, 0u64, 0u64);
+    for n in &variants {
+        CPUS.store(*n, std::sync::atomic::Ordering::Relaxed);
+        if let Some((e, d, a)) = sweep(&rep) {
+            tot = (tot.0 + e, tot.1 + d, a);
+        }
+        if rep.saturated() {
+            break;
+        }
+    }
+    CPUS.store(0, std::sync::atomic::Ordering::Relaxed);
+    let (evals, distinct, aligned_pairs) = tot;
+    let cov = J::obj()
+        .set("evaluations", evals)
+        .set("distinct_nontrivial", distinct)
+        .set("cpu_counts_seen_by_the_table_initialiser", variants.iter().map(|n| if *n == 0 { format!("all ({})", avail) } else { n.to_string() }).collect::<Vec<_>>())
+        .set("rule", "sliders: for each of 64 squares, every subset of the rook rays and of the bishop rays (edge squares included), each combined with 4 fillings of all other squares (empty, full, checkerboard, own square set), looked up as rook/bishop and as queen; leapers: 64 squares x {knight, king}; lines: all 64x63 ordered pairs, segment (inclusive=true) and whole line (inclusive=false). A case is distinct by (piece, square, on-ray subset) / (square) / (from, to, table). The whole enumeration is repeated with the tables built under each listed CPU count (thread affinity narrowed while LookupTable::init() runs).")
+        .set("aligned_pairs", aligned_pairs)
+        .set("exhaustive", true)
+        .set("samples", J::Arr(vec![
+            J::obj().set("piece", "R").set("square", "d4").set("occupancy", "0x0000000008000800").set("expected", format!("{:#018x}", expect_slider(Piece::Rook, 27, 0x0000000008000800))),
+            J::obj().set("segment", "a2..a4").set("expected", format!("{:#018x}", segment(8, 24))),
+            J::obj().set("line", "b2,d4").set("expected", format!("{:#018x}", line(9, 27))),
+        ]));
+    rep.finish(
+        "exploration",
+        cov,
+        vec![
+            "occupancy bits off a piece's rays do not influence the lookup beyond the four fillings tried (the code masks the occupancy with the ray mask before indexing)".into(),
+            "the segment table includes both end squares and the line table runs edge to edge, as documented in lookup.rs and relied on by move_gen.rs; from == to is outside the claim".into(),
+        ],
+        out,
+    );
+}
+
+/// One complete enumeration with the tables built under the current CPUS setting.
+/// Returns (evaluations, distinct cases, aligned pairs), None if the tables could not be built.
+fn sweep(rep: &Report) -> Option<(u64, u64, u64)> {
+    let rep = rep;
+    let lk = match guard(build_table) {
         Ok(l) => l,
         Err(e) => {
-            rep.violation("C10 init".into(), format!("LookupTable::init: {}", e), vec![], J::Null);
-            rep.finish("exploration", J::obj().set("evaluations", 1).set("distinct_nontrivial", 0).set("rule", "init failed").set("samples", vec!["LookupTable::init"]), vec![], out);
-            return;
+            rep.violation(format!("C10 init cpus={}", CPUS.load(std::sync::atomic::Ordering::Relaxed)), format!("LookupTable::init: {}{}", e, cpus_text()), vec![], J::Null);
+            return None;
         }
     };
     let checker: u64 = 0xAA55AA55AA55AA55;
@@ -231,8 +375,12 @@ pub fn run(tier: &str, seed: u64, out: &str) {
             if got != Ok(want) {
                 rep.violation(
                     format!("C10 leaper piece={} sq={}", piece_name(piece), sq_name(sq)),
-                    format!("{} on {}: table {:?}, geometry {:#018x}", piece_name(piece), sq_name(sq), got, want),
-                    vec!["c10-one".into(), "--piece".into(), piece_name(piece).into(), "--sq".into(), sq.to_string(), "--occ".into(), "0".into()],
+                    format!("{} on {}: table {:?}, geometry {:#018x}{}", piece_name(piece), sq_name(sq), got, want, cpus_text()),
+                    {
+                        let mut a = vec!["c10-one".to_string(), "--piece".into(), piece_name(piece).into(), "--sq".into(), sq.to_string(), "--occ".into(), "0".into()];
+                        cpus_args(&mut a);
+                        a
+                    },
                     J::Null,
                 );
             }
@@ -255,39 +403,63 @@ pub fn run(tier: &str, seed: u64, out: &str) {
                 if got != Ok(want) {
                     rep.violation(
                         format!("C10 {} from={} to={}", name, sq_name(a), sq_name(b)),
-                        format!("between({}, {}, inclusive={}) = {:?}, geometry gives {:#018x}", sq_name(a), sq_name(b), inclusive, got, want),
-                        vec!["c10-between".into(), "--from".into(), a.to_string(), "--to".into(), b.to_string()],
+                        format!("between({}, {}, inclusive={}) = {:?}, geometry gives {:#018x}{}", sq_name(a), sq_name(b), inclusive, got, want, cpus_text()),
+                        {
+                            let mut v = vec!["c10-between".to_string(), "--from".into(), a.to_string(), "--to".into(), b.to_string()];
+                            cpus_args(&mut v);
+                            v
+                        },
                         J::Null,
                     );
                 }
             }
         }
     }
-    let cov = J::obj()
-        .set("evaluations", evals)
-        .set("distinct_nontrivial", distinct)
-        .set("rule", "sliders: for each of 64 squares, every subset of the rook rays and of the bishop rays (edge squares included), each combined with 4 fillings of all other squares (empty, full, checkerboard, own square set), looked up as rook/bishop and as queen; leapers: 64 squares x {knight, king}; lines: all 64x63 ordered pairs, segment (inclusive=true) and whole line (inclusive=false). A case is distinct by (piece, square, on-ray subset) / (square) / (from, to, table).")
-        .set("aligned_pairs", aligned_pairs)
-        .set("exhaustive", true)
-        .set("samples", J::Arr(vec![
-            J::obj().set("piece", "R").set("square", "d4").set("occupancy", "0x0000000008000800").set("expected", format!("{:#018x}", expect_slider(Piece::Rook, 27, 0x0000000008000800))),
-            J::obj().set("segment", "a2..a4").set("expected", format!("{:#018x}", segment(8, 24))),
-            J::obj().set("line", "b2,d4").set("expected", format!("{:#018x}", line(9, 27))),
-        ]));
-    rep.finish(
-        "exploration",
-        cov,
-        vec![
-            "occupancy bits off a piece's rays do not influence the lookup beyond the four fillings tried (the code masks the occupancy with the ray mask before indexing)".into(),
-            "the segment table includes both end squares and the line table runs edge to edge, as documented in lookup.rs and relied on by move_gen.rs; from == to is outside the claim".into(),
-        ],
-        out,
-    );
+    Some((evals, distinct, aligned_pairs))
 }
 
-pub fn replay_slider(piece: &str, sq: u8, occ: u64) -> i32 {
+fn piece_of(piece: &str) -> Piece {
+    match piece {
+        "R" => Piece::Rook,
+        "B" => Piece::Bishop,
+        "Q" => Piece::Queen,
+        "N" => Piece::Knight,
+        _ => Piece::King,
+    }
+}
+
+/// Replay of a lookup whose answer depends on earlier lookups: a fresh table, the recorded
+/// lookups in order, the last one judged.
+pub fn replay_hist(seq: &str, cpus: usize) -> i32 {
+    CPUS.store(cpus, std::sync::atomic::Ordering::Relaxed);
+    let lk = build_table();
+    let items: Vec<(Piece, u8, u64)> = seq
+        .split(',')
+        .map(|t| {
+            let f: Vec<&str> = t.split(':').collect();
+            (piece_of(f[0]), f[1].parse().unwrap(), f[2].parse().unwrap())
+        })
+        .collect();
+    let mut last = None;
+    for (p, s, o) in &items {
+        last = Some((lk.sliding_moves(*s, *o, *p), expect_slider(*p, *s, *o)));
+    }
+    match last {
+        Some((got, want)) if got != want => {
+            println!("REPLAY-VIOLATION C10 after the lookups [{}] the last one gives {:#018x}, the ray walk {:#018x}", seq, got, want);
+            1
+        }
+        _ => {
+            println!("REPLAY-OK C10 lookups [{}]", seq);
+            0
+        }
+    }
+}
+
+pub fn replay_slider(piece: &str, sq: u8, occ: u64, cpus: usize) -> i32 {
     let rep = Report::new("C10", "quick", 0);
-    let lk = LookupTable::init();
+    CPUS.store(cpus, std::sync::atomic::Ordering::Relaxed);
+    let lk = build_table();
     let p = match piece {
         "R" => Piece::Rook,
         "B" => Piece::Bishop,
@@ -309,8 +481,9 @@ pub fn replay_slider(piece: &str, sq: u8, occ: u64) -> i32 {
     }
 }
 
-pub fn replay_between(a: u8, b: u8) -> i32 {
-    let lk = LookupTable::init();
+pub fn replay_between(a: u8, b: u8, cpus: usize) -> i32 {
+    CPUS.store(cpus, std::sync::atomic::Ordering::Relaxed);
+    let lk = build_table();
     if lk.between(a, b, true) == segment(a, b) && lk.between(a, b, false) == line(a, b) {
         println!("REPLAY-OK C10 between {} {}", a, b);
         0
